@@ -3,6 +3,7 @@ package props
 import (
 	"bytes"
 	"context"
+	"encoding/json"
 	"fmt"
 	"net/http"
 
@@ -272,6 +273,38 @@ func C03(r *h.Run) {
 				continue
 			}
 			check("client_split", cfg, body, whole, got, chunks, fin, what)
+		}
+	}
+	// 4b. unary Connect ERROR responses: the JSON error document is the body of a non-200
+	// response; however the transport cuts it, the client reports the same code and message
+	for i := 0; i < r.N(16, 120); i++ {
+		code := connect.Code(1 + rng.Intn(16))
+		msg := string(genPayloadASCII(rng, 1+rng.Intn(60)))
+		doc, _ := json.Marshal(map[string]any{"code": code.String(), "message": msg})
+		status := []int{400, 404, 409, 412, 429, 500, 503}[rng.Intn(7)]
+		hdr := http.Header{"Content-Type": {"application/json"}}
+		variants := [][][]byte{{doc}, h.OneByteChunks(doc), h.SplitAt(doc, []int{1}), h.SplitAt(doc, []int{len(doc) - 1}), h.SplitAt(doc, []int{len(doc) / 2})}
+		var whole string
+		for vi, chunks := range variants {
+			for _, fin := range []h.FinKind{h.FinCleanEOF, h.FinEOFWithData} {
+				res := doCall(envCfg{Proto: "connect"}, "unary", func() *http.Response {
+					return h.NewResponse(status, hdr.Clone(), h.NewChunkBody(chunks, fin), nil)
+				})
+				got := fmt.Sprint(res.err)
+				if res.panicked != nil || res.timedOut {
+					got = fmt.Sprint("panic or hang: ", res.panicked)
+				}
+				r.Eval("unary_error_split", fmt.Sprintf("%d|%s|%v|%d", status, doc, chunkSizes(chunks), fin))
+				if vi == 0 && fin == h.FinCleanEOF {
+					whole = got
+					r.Sample("unary_error_split", map[string]any{"status": status, "error_json": string(doc), "client_error": got})
+					continue
+				}
+				if got != whole {
+					r.Fail(h.Failure{Key: "segmentation/client-outcome-differs", Family: "unary_error_split", What: "the error a unary Connect client reports for a non-200 response depends on how the transport cut its body",
+						Input: map[string]any{"status": status, "error_json": string(doc), "chunk_sizes": chunkSizes(chunks), "fin": fin.Coq()}, Expected: whole, Actual: got})
+				}
+			}
 		}
 	}
 	// 5. a read limit, a last message beyond it, and the call's status (ok or an error)
